@@ -87,11 +87,26 @@ func xmlTokenizes(b []byte) bool {
 	}
 }
 
+// prefixSub: class sub-key of a failed prefix comparison. Turtle/TriG: when the cut falls inside a
+// collection item that is followed by something that could start another item, the decoder has
+// emitted the item (rdf:first) and the link to a next cell (rdf:rest) before it meets the end of
+// input: two trailing statements stem from the cut region. Everything else keeps the plain key.
+func prefixSub(what string, got, ref []string) string {
+	n := len(got)
+	if n >= 2 && isPrefixUpTo(got, ref, 2) && strings.Contains(got[n-2], "22-rdf-syntax-ns#first> ") && strings.Contains(got[n-1], "22-rdf-syntax-ns#rest> _:") {
+		return "collection-item-cut"
+	}
+	return what
+}
+
 // isPrefixUpToLast: a (minus possibly its last element) is a prefix of b.
-func isPrefixUpToLast(a, b []string) bool {
-	n := len(a)
-	if n > 0 {
-		n--
+func isPrefixUpToLast(a, b []string) bool { return isPrefixUpTo(a, b, 1) }
+
+// isPrefixUpTo: a minus its last k elements is a prefix of b.
+func isPrefixUpTo(a, b []string, k int) bool {
+	n := len(a) - k
+	if n < 0 {
+		n = 0
 	}
 	if n > len(b) {
 		return false
@@ -168,7 +183,7 @@ func (s *sink) schedule(c Case, r *vh.Rng, thorough, verboseOut bool) {
 		case got.Delivered && got.Verdict != "error":
 			s.add(violation{Prop: "C15", Kind: "fault-swallowed", Format: c.Format, Sub: cc.Sched.Fault, Detail: fmt.Sprintf("reader failed at offset %d of %d but the decoder ended cleanly with %d statements", p, n, len(got.Stmts)), Case: cc})
 		case streaming[c.Format] && ref.Verdict == "clean" && !isPrefixUpToLast(got.Stmts, ref.Stmts):
-			s.add(violation{Prop: "C15", Kind: "prefix", Format: c.Format, Sub: "fault", Detail: "statements before the reader fault are not a prefix of the complete document's: " + firstDiff(got.Stmts, ref.Stmts), Case: cc})
+			s.add(violation{Prop: "C15", Kind: "prefix", Format: c.Format, Sub: prefixSub("fault", got.Stmts, ref.Stmts), Detail: "statements before the reader fault are not a prefix of the complete document's: " + firstDiff(got.Stmts, ref.Stmts), Case: cc})
 		}
 		if !got.Delivered {
 			s.count("fault-not-reached:" + c.Format)
@@ -193,7 +208,7 @@ func (s *sink) schedule(c Case, r *vh.Rng, thorough, verboseOut bool) {
 			case !streaming[c.Format] && got.Verdict == "clean" && detectableCut(c.Format, c.Opts, c.Input, k):
 				s.add(violation{Prop: "C15", Kind: "truncation-accepted", Format: c.Format, Sub: "carrier-syntax", Detail: fmt.Sprintf("document cut at offset %d of %d (inside the JSON text / XML root element) ended cleanly with %d statements", k, n, len(got.Stmts)), Case: cc})
 			case streaming[c.Format] && !isPrefixUpToLast(got.Stmts, ref.Stmts):
-				s.add(violation{Prop: "C15", Kind: "prefix", Format: c.Format, Sub: "truncation", Detail: "statements of the truncated document are not a prefix of the complete document's: " + firstDiff(got.Stmts, ref.Stmts), Case: cc})
+				s.add(violation{Prop: "C15", Kind: "prefix", Format: c.Format, Sub: prefixSub("truncation", got.Stmts, ref.Stmts), Detail: "statements of the truncated document are not a prefix of the complete document's: " + firstDiff(got.Stmts, ref.Stmts), Case: cc})
 			}
 			if detectableCut(c.Format, c.Opts, c.Input, k) {
 				s.count("detectable-cuts:" + c.Format)
